@@ -907,3 +907,107 @@ Theorem rn_read_index_safe n c : RnInv n -> safe RnInv (rn_read_index n c).
 Proof. intros H. apply step_fst_safe; [exact H|apply snap_ok_local; discriminate]. Qed.
 Theorem rn_request_snapshot_safe n : RnInv n -> safe (fun y => RnInv (fst y)) (rn_request_snapshot n).
 Proof. intros H. unfold rn_request_snapshot. apply lift2_safe. apply request_snapshot_safe. exact H. Qed.
+
+(* ================================================================== *)
+(* (a) function level, no invariant on the node needed: from maybe_send_append the
+   Inflights window of the progress handed in is never over-filled, whatever the state,
+   because is_paused = false means "not full". *)
+Lemma update_state_no_panic p last s :
+  Inv (ins p) -> is_paused p = false -> update_state p last = Panic s -> False.
+Proof.
+  intros Hi Hp H. unfold update_state, is_paused in *. destruct (pr_state p); try discriminate.
+  destruct (inf_add_ok (ins p) last Hi Hp) as (i & E & _). rewrite E in H. discriminate.
+Qed.
+
+Lemma try_batching_panic_update_state r to msgs : forall pr ents s,
+  try_batching r to msgs pr ents = Panic s -> exists last, update_state pr last = Panic s.
+Proof.
+  induction msgs as [|m rest IH]; intros pr ents s H; cbn [try_batching] in H; [discriminate|].
+  destruct ((m_type m =? MsgAppend) && (m_to m =? to)).
+  - destruct ents; [discriminate|]. destruct (negb _); [discriminate|].
+    apply bind_panic in H. destruct H as [H|(? & _ & H)]; [eauto|discriminate].
+  - apply bind_panic in H. destruct H as [H|([[a b] c] & _ & H)]; [eauto|discriminate].
+Qed.
+
+Theorem maybe_send_append_no_inflights_panic r to pr ae s :
+  Inv (ins pr) -> maybe_send_append r to pr ae = Panic s -> ~ In s update_state_sites.
+Proof.
+  intros Hi H Hin. unfold maybe_send_append in H.
+  destruct (is_paused pr) eqn:Hp; [discriminate|].
+  assert (Snap : forall x : Res (raft * progress * bool),
+            x = (y <- prepare_send_snapshot r (msg_default <| m_to := to |>) pr to ;;
+                 match y with
+                 | None => Ok (r, pr, false)
+                 | Some (m', pr') => r' <- send r m' ;; Ok (r', pr', true)
+                 end) -> x = Panic s -> False).
+  { intros x -> X. apply bind_panic in X. destruct X as [X|(y & _ & X)].
+    - apply prepare_send_snapshot_sites_ok in X.
+      eapply (disj_notin prepare_send_snapshot_sites update_state_sites); [vm_compute; reflexivity|exact X|exact Hin].
+    - destruct y as [[m' pr']|]; [|discriminate].
+      apply bind_panic in X. destruct X as [X|(? & _ & X)]; [|discriminate].
+      apply send_sites_ok in X.
+      eapply (disj_notin send_sites update_state_sites); [vm_compute; reflexivity|exact X|exact Hin]. }
+  cbv zeta in H.
+  destruct (negb (pending_request_snapshot pr =? INVALID_INDEX)); [eapply Snap; [reflexivity|exact H]|].
+  apply bind_panic in H. destruct H as [H|(ents & _ & H)].
+  { apply log_entries_sites_ok in H.
+    eapply (disj_notin log_entries_sites update_state_sites); [vm_compute; reflexivity|exact H|exact Hin]. }
+  cbv beta in H.
+  match type of H with (if ?c then _ else _) = _ => destruct c end; [discriminate|].
+  destruct (next_idx pr =? 0).
+  { injection H as <-. revert Hin. apply notin_b. vm_compute. reflexivity. }
+  apply bind_panic in H. destruct H as [H|(t & _ & H)].
+  { apply term_sites_ok in H.
+    eapply (disj_notin term_sites update_state_sites); [vm_compute; reflexivity|exact H|exact Hin]. }
+  cbv beta in H. destruct t as [t|e], ents as [ents|e'].
+  - apply bind_panic in H. destruct H as [H|([[msgs' pr'] b] & _ & H)].
+    + destruct (r_batch_append r); [|discriminate].
+      apply try_batching_panic_update_state in H. destruct H as [last H].
+      eapply update_state_no_panic; eassumption.
+    + cbv beta iota in H. destruct b; [discriminate|].
+      apply bind_panic in H. destruct H as [H|([m' pr''] & _ & H)].
+      * apply prepare_send_entries_panics_iff in H.
+        destruct H as [[_ ->]|(_ & _ & A)].
+        -- revert Hin. apply notin_b. vm_compute. reflexivity.
+        -- eapply update_state_no_panic; eassumption.
+      * cbv beta iota in H. apply bind_panic in H. destruct H as [H|(? & _ & H)]; [|discriminate].
+        apply send_sites_ok in H.
+        eapply (disj_notin send_sites update_state_sites); [vm_compute; reflexivity|exact H|exact Hin].
+  - destruct e'; try discriminate; eapply Snap; try reflexivity; exact H.
+  - eapply Snap; [reflexivity|exact H].
+  - destruct e'; try discriminate; eapply Snap; try reflexivity; exact H.
+Qed.
+
+(* ================================================================== *)
+(* reading a [safe] statement *)
+Lemma safe_split {A} (P : A -> Prop) (x : Res A) :
+  safe P x -> (forall a, x = Ok a -> P a) /\ (forall s, x = Panic s -> ~ In s local_sites).
+Proof. intros H. split; intros y ->; exact H. Qed.
+
+(* the definitions, written out *)
+Lemma NodeInv_def_pin r :
+  NodeInv r <->
+  (forall id p, get_pr r id = Some p -> InflightsProofs.Inv (ins p) /\ 1 <= next_idx p) /\
+  ro_queue (r_read_only r) = map fst (ro_pending (r_read_only r)).
+Proof. reflexivity. Qed.
+
+Lemma local_sites_def_pin :
+  local_sites =
+  [site_add_full; site_add_dbg_count; site_add_dbg_start; site_add_dbg_incoming; site_add_next;
+   site_setcap_dbg_len; site_setcap_slice; site_free_index; site_first_index; site_count_underflow;
+   site_update_state_snapshot; site_next_idx_underflow; site_ro_missing; site_pr_unwrap].
+Proof. reflexivity. Qed.
+
+Lemma safe_def_pin {A} (P : A -> Prop) (x : Res A) :
+  safe P x <-> (forall a, x = Ok a -> P a) /\ (forall s, x = Panic s -> ~ In s local_sites).
+Proof.
+  split; [apply safe_split|]. intros [H1 H2]. destruct x as [a|s]; [apply H1|apply H2]; reflexivity.
+Qed.
+
+(* NodeInv holds initially: fresh progress entries (as built by confchange::restore with
+   next_idx >= 1) and an empty ReadOnly *)
+Theorem NodeInv_initial r ids n mi o :
+  1 <= n -> t_progress (r_prs r) = fresh_progress ids n mi -> r_read_only r = ro_new o -> NodeInv r.
+Proof.
+  intros Hn Hp Hr. split; [rewrite Hp; apply PrsOk_fresh; exact Hn|rewrite Hr; apply RoInv_new].
+Qed.
